@@ -226,14 +226,25 @@ func c07Cli(c *Ctx) {
 		}
 		// variadic signals: collect constants stored into the backing array
 		sigs := map[string]bool{}
-		if sl, ok := a[1].(*ssa.Slice); ok {
-			if al, ok := sl.X.(*ssa.Alloc); ok {
-				for _, r := range *al.Referrers() {
-					if ia, ok := r.(*ssa.IndexAddr); ok {
-						for _, r2 := range *ia.Referrers() {
-							if st, ok := r2.(*ssa.Store); ok {
-								for _, o := range origins(st.Val) {
-									sigs[o] = true
+		var elems func(v ssa.Value, d int)
+		elems = func(v ssa.Value, d int) {
+			if d > 4 {
+				return
+			}
+			switch x := v.(type) {
+			case *ssa.Parameter: // signals forwarded through a helper: notify(sig ...os.Signal)
+				for _, a := range boundArgs(x) {
+					elems(a, d+1)
+				}
+			case *ssa.Slice:
+				if al, ok := x.X.(*ssa.Alloc); ok {
+					for _, r := range *al.Referrers() {
+						if ia, ok := r.(*ssa.IndexAddr); ok {
+							for _, r2 := range *ia.Referrers() {
+								if st, ok := r2.(*ssa.Store); ok {
+									for _, o := range origins(st.Val) {
+										sigs[o] = true
+									}
 								}
 							}
 						}
@@ -241,6 +252,7 @@ func c07Cli(c *Ctx) {
 				}
 			}
 		}
+		elems(a[1], 0)
 		if sigs["const:2"] && sigs["const:15"] {
 			sigOK = true
 			sigChanOrigins = origins(a[0])
@@ -249,18 +261,18 @@ func c07Cli(c *Ctx) {
 	c.verdict(sigOK, "cmd.main:notify", main.Pos(), "signal.Notify registers SIGINT(2) and SIGTERM(15)", "main does not register SIGINT and SIGTERM with signal.Notify")
 	// 3. a goroutine started by main receives from that channel and then calls cancel
 	cancelOK := false
-	for _, cl := range main.AnonFuncs {
-		started := false
-		instrs(main, func(_ *ssa.BasicBlock, _ int, ins ssa.Instruction) {
-			if g, ok := ins.(*ssa.Go); ok {
-				if mc, ok := g.Call.Value.(*ssa.MakeClosure); ok && mc.Fn == cl {
-					started = true
-				}
+	// the goroutines main starts: closures of main or (new) named functions
+	var started []*ssa.Function
+	instrs(main, func(_ *ssa.BasicBlock, _ int, ins ssa.Instruction) {
+		if g, ok := ins.(*ssa.Go); ok {
+			if mc, ok := g.Call.Value.(*ssa.MakeClosure); ok {
+				started = append(started, mc.Fn.(*ssa.Function))
+			} else if f := g.Call.StaticCallee(); f != nil && f.Blocks != nil {
+				started = append(started, f)
 			}
-		})
-		if !started {
-			continue
 		}
+	})
+	for _, cl := range started {
 		var recv ssa.Instruction
 		var callCancel ssa.Instruction
 		instrs(cl, func(_ *ssa.BasicBlock, _ int, ins ssa.Instruction) {
